@@ -78,8 +78,32 @@ class AxArr:
         return '[' + ', '.join('.'.join(sorted(l)) or '1' for l, _ in self.axes) + ']'
 
 
+def _mk(op, x, y):
+    return Sym(op, (x, y))
+
+
+class _SymArith:
+    def __add__(self, o):
+        return _mk('+', self, o)
+
+    def __radd__(self, o):
+        return _mk('+', o, self)
+
+    def __mul__(self, o):
+        return _mk('*', self, o)
+
+    def __rmul__(self, o):
+        return _mk('*', o, self)
+
+    def __sub__(self, o):
+        return _mk('-', self, o)
+
+    def __rsub__(self, o):
+        return _mk('-', o, self)
+
+
 @dataclass(frozen=True)
-class Opaque:
+class Opaque(_SymArith):
     """A symbolic value the interpreter only moves around (an argument of the analysed function)."""
 
     name: str
@@ -106,7 +130,7 @@ class IInfo:
 
 
 @dataclass(frozen=True)
-class Sym:
+class Sym(_SymArith):
     """A symbolic expression built from opaque values: attribute loads, calls, external functions."""
 
     op: str
@@ -620,11 +644,30 @@ class Interp:
         if path in ('jax.tree.map',) and len(args) >= 2:
             if all(isinstance(t, AxArr) for t in args[1:]):
                 return self.call(args[0], list(args[1:]), {}, None)
+            flat = [_tree_flatten(t, kwargs.get('is_leaf'), self) for t in args[1:]]
+            if all(f_ is not None for f_ in flat) and all(f_[1] == flat[0][1] for f_ in flat):
+                outs = [self.call(args[0], [f_[0][i] for f_ in flat], {}, None) for i in range(len(flat[0][0]))]
+                return _tree_unflatten(flat[0][1], outs)
             return UNK
-        if path in ('jax.tree.leaves', 'jax.tree.flatten') and args:
+        if path in ('jax.tree.leaves', 'jax.tree.flatten', 'jax.tree.structure') and args:
             if isinstance(args[0], AxArr):
                 return [args[0]] if path.endswith('leaves') else ([args[0]], UNK)
-            return UNK
+            f_ = _tree_flatten(args[0], kwargs.get('is_leaf'), self)
+            if f_ is None:
+                return UNK
+            if path.endswith('leaves'):
+                return list(f_[0])
+            td = TreeDef(f_[1], len(f_[0]))
+            return td if path.endswith('structure') else (list(f_[0]), td)
+        if path == 'jax.tree.unflatten' and len(args) == 2 and isinstance(args[0], TreeDef):
+            return args[0].unflatten(self.iterate(args[1]))
+        if path == 'jax.tree.reduce' and len(args) in (2, 3):
+            f_ = _tree_flatten(args[1], kwargs.get('is_leaf'), self)
+            if f_ is None:
+                return UNK
+            return self.external('functools.reduce', [args[0], list(f_[0])] + list(args[2:]), {})
+        if path == 'jax.random.split' and len(args) == 2 and isinstance(args[1], int) and isinstance(args[0], (Opaque, Sym)):
+            return tuple(Sym('jax.random.split[]', (args[0], args[1], i)) for i in range(args[1]))
         if path == 'furax.tree.as_promoted_dtype' and len(args) == 1 and not kwargs and isinstance(args[0], (tuple, list)) and all(isinstance(x, (Opaque, Promoted)) for x in args[0]):
             group = frozenset(x.name if isinstance(x, Opaque) else x.value for x in args[0])
             out = [Promoted(x, group) for x in args[0]]
@@ -993,6 +1036,10 @@ class Interp:
                 if isinstance(v, Obj):
                     res = res or self.table.is_subclass(v.cls, x.cls)
                 continue
+            if isinstance(x, Ref) and x.path.split('.')[-1] == 'ShapeDtypeStruct':
+                if isinstance(v, (Opaque, Sym, AxArr, Promoted)) or _concrete(v):
+                    continue  # symbolic values stand for arrays
+                return UNK
             if isinstance(x, Ref) and x.path.split('.')[-1] in ('EllipsisType', 'ellipsis'):
                 res = res or v is Ellipsis
                 continue
@@ -1489,6 +1536,78 @@ def _is_generator(fn: ast.AST) -> bool:
             continue
         todo.extend(ast.iter_child_nodes(n))
     return False
+
+
+class TreeDef(PyStub):
+    """Structure of a pytree made of Python containers (tuple / list / dict) around abstract leaves."""
+
+    def __init__(self, shape: Any, n: int):
+        self.shape = shape
+        self.num_leaves = n
+
+    def unflatten(self, leaves: Any) -> Any:
+        leaves = list(leaves)
+        if len(leaves) != self.num_leaves:
+            raise Raised('ValueError')
+        return _tree_unflatten(self.shape, leaves)
+
+    def __eq__(self, other: Any) -> bool:
+        return isinstance(other, TreeDef) and other.shape == self.shape
+
+    def __hash__(self) -> int:
+        return hash(repr(self.shape))
+
+
+def _tree_flatten(t: Any, is_leaf: Any, interp: 'Interp') -> tuple[list, Any] | None:
+    """(leaves, shape) where shape is a nested description; None if the tree holds something unmodelled."""
+    if is_leaf is not None:
+        try:
+            if interp.truth(interp.call(is_leaf, [t], {}, None)):
+                return [t], '*'
+        except Undecided:
+            return None
+    if t is None:
+        return [], None
+    if isinstance(t, Obj) and '__record_fields__' in t.attrs:
+        return None
+    if isinstance(t, (Opaque, Sym, AxArr, Promoted, int, float, complex, bool)) or isinstance(t, Obj):
+        return [t], '*'
+    if isinstance(t, (tuple, list)):
+        leaves, shapes = [], []
+        for x in t:
+            f = _tree_flatten(x, is_leaf, interp)
+            if f is None:
+                return None
+            leaves += f[0]
+            shapes.append(f[1])
+        return leaves, (type(t).__name__, tuple(shapes))
+    if isinstance(t, dict):
+        leaves, shapes = [], []
+        for k in sorted(t, key=str):
+            f = _tree_flatten(t[k], is_leaf, interp)
+            if f is None:
+                return None
+            leaves += f[0]
+            shapes.append((k, f[1]))
+        return leaves, ('dict', tuple(shapes))
+    return None
+
+
+def _tree_unflatten(shape: Any, leaves: list) -> Any:
+    it = iter(leaves)
+
+    def build(s):
+        if s == '*':
+            return next(it)
+        if s is None:
+            return None
+        kind, parts = s
+        if kind == 'dict':
+            return {k: build(v) for k, v in parts}
+        seq = [build(x) for x in parts]
+        return tuple(seq) if kind == 'tuple' else seq
+
+    return build(shape)
 
 
 def _as_load(t: ast.AST) -> ast.AST:
